@@ -11,6 +11,19 @@
 //!   trace = return values of the prelude calls, then per entry [op (0 skipped,1 load,2 store,3 cas,4 rmw), return value of the call
 //!           completed by this operation or -1, limit()], per worker [atomic steps, return values
 //!           (updates 2, limit() the value)], [limit()]
+//! kind 5 (clones of one AdaptiveService<_, Aimd> on worker threads, under the baton scheduler; needs the
+//!   service's own atomics (in_flight, current_limit) to be instrumented -- /repo hook in service.rs;
+//!   without it the trace is [-5]):
+//!   script = [5, initial, min, max, increase_by, dec_num, dec_den, 0, threads as in kinds 1..3]
+//!   calls 0 poll_ready (-> 11 Ready / 13 Pending), 1 call, future kept in the worker's slot arg (-> 20),
+//!         2 finish the future in slot arg/10: arg%10 = 0 ok / 1 err (outcome sent, polled to completion
+//!           -> 31 / 32), 2 the inner future panics (-> 35), 3 dropped unpolled (-> 50),
+//!         3 call with a panicking inner.call() (-> 26)
+//!   trace = prelude results, per entry [op, completed call's result or -1, in_flight(), limit()],
+//!           per worker [atomic steps, results], [in_flight(), limit()]
+//! kinds 6 / 7 / 8: the events of kind 4 on AdaptiveService<_, Vegas> (6: Vegas::new; script
+//!   [6, initial, min, max, alpha, beta, 0, 0, ...]), on the Algorithm enum around a builder-made Aimd (7)
+//!   or Vegas (8), the service made by AdaptiveLimiterLayer::layer
 //! kind 4 (AdaptiveService<_, Aimd> over a gated inner service, hand-polled futures):
 //!   script = [4, initial, min, max, increase_by, dec_num, dec_den, threshold_ms, (op a b)*]
 //!   op 1 poll_ready | 2 call a | 3 poll a | 4 complete a b (0 ok 1 err 2 panic) | 5 drop a
@@ -22,12 +35,15 @@
 use std::cell::Cell;
 use std::future::Future;
 use std::pin::Pin;
-use std::sync::atomic::{AtomicBool, AtomicI64, Ordering};
+use std::sync::atomic::{AtomicBool, AtomicI64, AtomicUsize, Ordering};
 use std::sync::{Arc, Condvar, Mutex};
 use std::task::{Context, Poll, Waker};
 use std::time::Duration;
 use tower::Service;
-use tower_resilience_adaptive::{AdaptiveError, AdaptiveService, Aimd, ConcurrencyAlgorithm, Vegas};
+use tower::Layer;
+use tower_resilience_adaptive::{
+    AdaptiveError, AdaptiveLimiterLayer, AdaptiveService, Aimd, Algorithm, ConcurrencyAlgorithm, Vegas,
+};
 use tower_resilience_core::aimd::{AimdConfig, AimdController};
 use verif_harness::*;
 
@@ -58,8 +74,12 @@ fn lock() -> std::sync::MutexGuard<'static, Sched> {
     SCHED.lock().unwrap_or_else(|e| e.into_inner())
 }
 
+/// every instrumented atomic operation, whichever thread performs it
+static HOOK_COUNT: AtomicUsize = AtomicUsize::new(0);
+
 /// Called by the instrumented atomics before every atomic operation.
 fn hook(op: &'static str) {
+    HOOK_COUNT.fetch_add(1, Ordering::SeqCst);
     let me = TID.with(|t| t.get());
     if me == usize::MAX {
         return; // scheduler / prelude thread: not scheduled
@@ -266,7 +286,7 @@ impl Service<i128> for Inner2 {
         }
     }
     fn call(&mut self, req: i128) -> Self::Future {
-        if self.call_panics.swap(false, Ordering::SeqCst) {
+        if req < 0 || self.call_panics.swap(false, Ordering::SeqCst) {
             panic!("scripted panic in inner call()");
         }
         self.g.call(req)
@@ -276,21 +296,34 @@ impl Service<i128> for Inner2 {
 type Res = Result<i128, AdaptiveError<i128>>;
 const NCALLS: usize = 24;
 
-fn run_service(s: &[i128]) -> Vec<i128> {
-    let thr_ms = zn(s, 7).max(0) as u64;
-    let alg = Aimd::new(config(s), Duration::from_millis(thr_ms));
+struct Gate {
+    sh: Arc<InnerShared>,
+    mode: Arc<AtomicI64>,
+    call_panics: Arc<AtomicBool>,
+}
+
+fn gated_inner() -> (Inner2, Gate) {
+    let g = GatedInner::new();
+    let sh = g.0.clone();
+    let mode = Arc::new(AtomicI64::new(0));
+    let call_panics = Arc::new(AtomicBool::new(false));
+    let inner = Inner2 { g, mode: mode.clone(), call_panics: call_panics.clone() };
+    (inner, Gate { sh, mode, call_panics })
+}
+
+/// the sequential event script (kinds 4, 6, 7, 8) on a service built by `mk` inside the runtime
+fn run_service<A: ConcurrencyAlgorithm + 'static>(
+    s: &[i128],
+    mk: impl FnOnce(Inner2) -> AdaptiveService<Inner2, A>,
+) -> Vec<i128> {
     let rt = paused_rt();
     rt.block_on(async move {
-        let g = GatedInner::new();
-        let sh = g.0.clone();
-        let mode = Arc::new(AtomicI64::new(0));
-        let call_panics = Arc::new(AtomicBool::new(false));
-        let inner = Inner2 { g, mode: mode.clone(), call_panics: call_panics.clone() };
-        let mut svc = AdaptiveService::new(inner, Arc::new(alg));
+        let (inner, Gate { sh, mode, call_panics }) = gated_inner();
+        let mut svc = mk(inner);
         let mut callers: Vec<Option<Manual<Res>>> = (0..NCALLS).map(|_| None).collect();
         let mut created = vec![false; NCALLS];
         let mut tr = Vec::new();
-        let ready = |svc: &mut AdaptiveService<Inner2, Aimd>| -> i128 {
+        let ready = |svc: &mut AdaptiveService<Inner2, A>| -> i128 {
             let flag = Arc::new(Flag(AtomicBool::new(false)));
             let w = Waker::from(flag.clone());
             let mut cx = Context::from_waker(&w);
@@ -433,8 +466,215 @@ fn run(s: &[i128]) -> Vec<i128> {
             let v = Vegas::new(zn(s, 1) as usize, zn(s, 2) as usize, zn(s, 3) as usize, zn(s, 4) as usize, zn(s, 5) as usize);
             run_object(&v, s, &|v: &Vegas, k| alg_call(v, k), &|v: &Vegas| v.limit() as i128)
         }
-        _ => run_service(s),
+        5 => run_clones(s),
+        6 => {
+            let v = Vegas::new(zn(s, 1) as usize, zn(s, 2) as usize, zn(s, 3) as usize, zn(s, 4) as usize, zn(s, 5) as usize);
+            run_service(s, |inner| AdaptiveService::new(inner, Arc::new(v)))
+        }
+        7 => {
+            let factor = if zn(s, 6) == 0 { 0.0 } else { zn(s, 5) as f64 / zn(s, 6) as f64 };
+            let a = Aimd::builder()
+                .initial_limit(zn(s, 1) as usize)
+                .min_limit(zn(s, 2) as usize)
+                .max_limit(zn(s, 3) as usize)
+                .increase_by(zn(s, 4) as usize)
+                .decrease_factor(factor)
+                .latency_threshold(Duration::from_millis(zn(s, 7).max(0) as u64))
+                .build();
+            let layer = AdaptiveLimiterLayer::new(Algorithm::Aimd(a));
+            run_service(s, move |inner| layer.layer(inner))
+        }
+        8 => {
+            let v = Vegas::builder()
+                .initial_limit(zn(s, 1) as usize)
+                .min_limit(zn(s, 2) as usize)
+                .max_limit(zn(s, 3) as usize)
+                .alpha(zn(s, 4) as usize)
+                .beta(zn(s, 5) as usize)
+                .build();
+            let layer = AdaptiveLimiterLayer::new(Algorithm::Vegas(v));
+            run_service(s, move |inner| layer.layer(inner))
+        }
+        _ => {
+            let alg = Aimd::new(config(s), Duration::from_millis(zn(s, 7).max(0) as u64));
+            run_service(s, |inner| AdaptiveService::new(inner, Arc::new(alg)))
+        }
     }
+}
+
+// ---------------------------------------------------------------------------
+// kind 5: clones of one service on worker threads
+const SLOTS: usize = 4;
+
+struct Worker {
+    svc: AdaptiveService<Inner2, Aimd>,
+    sh: Arc<InnerShared>,
+    tid: usize,
+    next_req: i128,
+    futs: Vec<Option<(i128, Manual<Res>)>>,
+}
+
+impl Drop for Worker {
+    fn drop(&mut self) {
+        // futures still held when the worker's program ends stay in flight (never generated):
+        // leak them, so that no unscripted atomic step happens
+        for f in self.futs.drain(..).flatten() {
+            std::mem::forget(f);
+        }
+    }
+}
+
+fn noop_ready(svc: &mut AdaptiveService<Inner2, Aimd>) -> i128 {
+    let flag = Arc::new(Flag(AtomicBool::new(false)));
+    let w = Waker::from(flag.clone());
+    let mut cx = Context::from_waker(&w);
+    match svc.poll_ready(&mut cx) {
+        Poll::Ready(Ok(())) => 11,
+        Poll::Ready(Err(_)) => 12,
+        Poll::Pending => {
+            if flag.0.load(Ordering::SeqCst) {
+                13
+            } else {
+                10
+            }
+        }
+    }
+}
+
+fn worker_call(w: &mut Worker, c: (i128, i128)) -> i128 {
+    match c.0 {
+        0 => noop_ready(&mut w.svc),
+        1 => {
+            let slot = (c.1.max(0) as usize) % SLOTS;
+            w.next_req += 1;
+            let req = (w.tid as i128 + 1) * 1000 + w.next_req;
+            let f = w.svc.call(req);
+            if let Some(old) = w.futs[slot].replace((req, Manual::new(f))) {
+                std::mem::forget(old); // never generated: a slot is free when it is used
+            }
+            20
+        }
+        2 => {
+            let slot = ((c.1.max(0) / 10) as usize) % SLOTS;
+            let o = c.1.max(0) % 10;
+            match w.futs[slot].take() {
+                None => 39,
+                Some((req, mut m)) => match o {
+                    3 => {
+                        m.drop_fut();
+                        50
+                    }
+                    _ => {
+                        w.sh.complete(req, 0, match o { 0 => Outcome::Ok(req), 1 => Outcome::Err(req), _ => Outcome::Panic });
+                        let fin = m.poll();
+                        if !fin {
+                            w.futs[slot] = Some((req, m));
+                            30
+                        } else if m.panicked {
+                            35
+                        } else {
+                            match m.done.take().unwrap() {
+                                Ok(_) => 31,
+                                Err(_) => 32,
+                            }
+                        }
+                    }
+                },
+            }
+        }
+        _ => {
+            let r = std::panic::catch_unwind(std::panic::AssertUnwindSafe(|| w.svc.call(-1)));
+            match r {
+                Ok(f) => {
+                    std::mem::forget(f);
+                    20
+                }
+                Err(_) => 26,
+            }
+        }
+    }
+}
+
+/// like run_threads, with a per-worker state built on the worker's own thread
+fn run_threads_local<W>(
+    n: usize,
+    progs: &[Vec<(i128, i128)>],
+    sched: &[i128],
+    mk: &(dyn Fn(usize) -> W + Sync),
+    call: &(dyn Fn(&mut W, (i128, i128)) -> i128 + Sync),
+    snap: &dyn Fn() -> Vec<i128>,
+) -> (Vec<i128>, Vec<Vec<i128>>, Vec<i128>) {
+    {
+        let mut g = lock();
+        g.granted = None;
+        g.waiting = vec![false; n];
+        g.finished = vec![false; n];
+        g.steps = vec![0; n];
+        g.last_op = 0;
+        g.results = vec![Vec::new(); n];
+    }
+    let mut per_entry = Vec::new();
+    std::thread::scope(|sc| {
+        for i in 0..n {
+            let prog = &progs[i];
+            sc.spawn(move || {
+                let mut w = mk(i); // before TID is set: building the state is not scheduled
+                TID.with(|t| t.set(i));
+                let _fin = Finish(i);
+                for c in prog {
+                    let r = std::panic::catch_unwind(std::panic::AssertUnwindSafe(|| call(&mut w, *c)));
+                    lock().results[i].push(r.unwrap_or(-777));
+                }
+                TID.with(|t| t.set(usize::MAX));
+                drop(w);
+            });
+        }
+        for e in sched {
+            let (op, done) = if *e < 0 { (0, -1) } else { grant(*e as usize) };
+            per_entry.extend([op, done]);
+            per_entry.extend(snap());
+        }
+        for t in 0..n {
+            while !is_finished(t) {
+                grant(t);
+            }
+        }
+    });
+    let g = lock();
+    (per_entry, g.results.clone(), g.steps.clone())
+}
+
+fn run_clones(s: &[i128]) -> Vec<i128> {
+    let (pre, progs, sched) = parse_threads(s, 8);
+    let alg = Aimd::new(config(s), Duration::from_millis(zn(s, 7).max(0) as u64));
+    let (inner, gate) = gated_inner();
+    let _ = (&gate.mode, &gate.call_panics);
+    let svc = AdaptiveService::new(inner, Arc::new(alg));
+    // are the service's own atomics instrumented? (in_flight() is one load)
+    let before = HOOK_COUNT.load(Ordering::SeqCst);
+    let _ = svc.in_flight();
+    if HOOK_COUNT.load(Ordering::SeqCst) == before {
+        return vec![-5];
+    }
+    let mk = |tid: usize| Worker {
+        svc: svc.clone(),
+        sh: gate.sh.clone(),
+        tid,
+        next_req: 0,
+        futs: (0..SLOTS).map(|_| None).collect(),
+    };
+    let mut main_w = mk(progs.len());
+    let mut tr: Vec<i128> = pre.iter().map(|c| worker_call(&mut main_w, *c)).collect();
+    let snap = || vec![svc.in_flight() as i128, svc.limit() as i128];
+    let (entries, results, steps) = run_threads_local(progs.len(), &progs, &sched, &mk, &worker_call, &snap);
+    tr.extend(entries);
+    for (i, rs) in results.iter().enumerate() {
+        tr.push(steps[i]);
+        tr.extend(rs);
+    }
+    tr.extend(snap());
+    drop(main_w);
+    tr
 }
 
 fn main() {
